@@ -110,7 +110,7 @@ def main() -> None:
              "kind_free_text": "TLC 1.8 explicit-state model checker on /verif/spec/*.tla (MC: internal theorems; GEN: exported states replayed into the code; TRACE: ndjson records of real executions validated step by step)"},
         ],
         "checks": checks,
-        "notes": "One TLA+ specification (/verif/spec) used in three TLC modes: MC, GEN (spec->code), TRACE (code->spec). See DESIGN.md. `./check EXTRA` (not a listed property) holds coverage beyond the list: TokenStream.tla replayed into tokens.TokenStream, the repository's own test suite trace-validated at the API boundary, and Lexer.tla bound to Lexer.run step by step through the env-guarded hook. `./check selftest` holds the RFC anchors, the corrupted-trace self-test and (thorough) the 80 seeded changes.",
+        "notes": "One TLA+ specification (/verif/spec) used in three TLC modes: MC, GEN (spec->code), TRACE (code->spec). See DESIGN.md. `./check EXTRA` (not a listed property) holds coverage beyond the list: TokenStream.tla replayed into tokens.TokenStream, the repository's own test suite trace-validated at the API boundary, and Lexer.tla bound to Lexer.run step by step through the env-guarded hook. `./check selftest` holds the RFC anchors, the corrupted-trace self-test and (thorough) the 120 seeded changes.",
         "not_applicable": na,
     }
     with open(os.path.join(VERIF, "MANIFEST.json"), "w") as fh:
